@@ -30,6 +30,9 @@ CHECKS = {
  "C05": ("exploration", "Every kernel variant and the codec (one-shot and streaming) run with each buffer in its own mapping bounded by inaccessible pages, consumed chunks made PROT_NONE, canaries around every buffer, context invariants, and the all-C build under ASan + bounds; a fault or damaged canary is attributed to the buffer and the faulting library symbol.",
          "declared ranges follow the headers (gf tables 32*k*rows, documented alignment/multiples); in-buffer over-reads are invisible to page protection; negative vects on RAID assembly kernels is a recorded known finding",
          "MMU guard pages + released-chunk histories + canaries + ASan/bounds, over generated workloads"),
+ "C15": ("exploration", "(a) every dispatch slot is resolved by running the resolvers directly, then every writable page of libisal.so is made read-only before the first API call; a serial pass and 16 threads with independent contexts and shared read-only inputs run 11 API scenarios: any write to library data faults, results must equal the serial ones; (b) first calls raced from 2/4/16 threads in fresh processes; (c) un-warmed threaded workload on the all-C build under ThreadSanitizer; (e) every scenario repeated with 5 garbage prefills of context/level_buf/output/output structs at two addresses and after reset / re-init reuse histories: all observable results identical.",
+         "the universal quantifier over interleavings is replaced by the no-shared-writes observation plus stress; documented caller obligations (zeroed histogram) respected",
+         "hardware write protection of library data + differential prefill/address/reuse monitor + ThreadSanitizer + racing cold starts"),
  "C16": ("exploration", "The real resolvers run under the x86 trap flag with CPUID/XGETBV emulated for every configuration of a dependency-closed space (covering subset in quick, complete in thorough); for every distinct slot assignment a battery over all public APIs is single-step traced, executed instructions are classified from the binary's disassembly and must be available in every configuration mapping to that assignment; untraced codec implementations are covered by a disassembly sweep; deterministic results must agree across assignments.",
          "mapping of untested extensions to CPU generations (SSSE3/POPCNT/BMI); EVEX implies full AVX-512 G1; host supports all simulated configurations",
          "runtime observation of resolver decisions under simulated CPUs + single-step instruction tracing (disassembly sweep for the untraced remainder)"),
@@ -69,6 +72,7 @@ ENGINES = [
  ("eng_huff", "harness/eng_huff.c", ["C18", "C05"], "custom Huffman tables: histogram families, header parser, per-symbol decode, round trips, install rules"),
  ("eng_hdr", "harness/eng_hdr.c", ["C19", "C05"], "gzip/zlib header writers and readers vs independent codec; chunking, overflow resume, arbitrary bytes"),
  ("eng_disp", "harness/eng_disp.c", ["C16"], "resolvers under simulated CPUID/XGETBV, API battery under the trap-flag instruction tracer; driver vlib/disp.py classifies executed instructions"),
+ ("eng_thr", "harness/eng_thr.c", ["C15"], "API scenarios with digests: prefill/address/reuse differential, read-only library pages with 16 threads, racing cold starts, TSan workload"),
  ("eng_gfmath", "harness/eng_gfmath.c", ["C09", "C12"], "scalar GF arithmetic (exhaustive), inversion, generators, erasure patterns"),
 ]
 WIP = "check not registered yet (implementation in progress; the technique applies - see DESIGN.md section 3)"
